@@ -6,6 +6,7 @@ import (
 	"fmt"
 	"net"
 	"os"
+	"runtime"
 	"strings"
 	"sync"
 	"sync/atomic"
@@ -24,7 +25,31 @@ import (
 
 const prop = "C10"
 
+// H2: the host client calls verifYield at the lock boundaries of its pool (build tag verif). The
+// table of the running plan decides what happens at the n-th such point: nothing, a Gosched, or a
+// short sleep; the table is drawn by rapid, so the perturbation is part of the (shrinkable) case.
+var yieldTable atomic.Value // []int
+var yieldCounter uint32
+
+func yieldPoint(point string) {
+	tb, _ := yieldTable.Load().([]int)
+	if len(tb) == 0 {
+		return
+	}
+	switch tb[int(atomic.AddUint32(&yieldCounter, 1))%len(tb)] {
+	case 1:
+		runtime.Gosched()
+	case 2:
+		time.Sleep(20 * time.Microsecond)
+	case 3:
+		time.Sleep(300 * time.Microsecond)
+	case 4:
+		time.Sleep(2 * time.Millisecond)
+	}
+}
+
 func TestMain(m *testing.M) {
+	http1.VerifYield = yieldPoint
 	code := m.Run()
 	ev.Flush()
 	os.Exit(code)
@@ -71,14 +96,14 @@ type ReqPlan struct {
 	ReqTimeout bool   `json:"request_timeout_300ms"`
 	Ctx        string `json:"ctx"` // "live", "cancelled-before", "cancelled-during"
 	PreDelay   int    `json:"pre_delay_us"`
-	Yields     int    `json:"yields"`
 }
 
 type Plan struct {
 	MaxConns    int         `json:"max_conns"`
 	WaitTimeout int         `json:"max_conn_wait_timeout_ms"`
 	Goroutines  [][]ReqPlan `json:"goroutines"`
-	DialFaults  []int       `json:"dial_faults"` // per dial: 0 ok, 1 error, 2 slow
+	DialFaults  []int       `json:"dial_faults"`           // per dial: 0 ok, 1 error, 2 slow
+	Yields      []int       `json:"yield_table,omitempty"` // action at the n-th pool lock boundary (mod len): 0 none, 1 Gosched, 2 20us, 3 300us, 4 2ms
 }
 
 // ---------------------------------------------------------------------------
@@ -354,6 +379,8 @@ func runPlan(p *Plan) (string, *world) {
 		}
 	}
 	opts := http1.ClientOptions{MaxConns: p.MaxConns, MaxConnWaitTimeout: time.Duration(p.WaitTimeout) * time.Millisecond, MaxIdleConnDuration: time.Hour, DialTimeout: time.Second}
+	yieldTable.Store(append([]int(nil), p.Yields...))
+	atomic.StoreUint32(&yieldCounter, 0)
 	cl := cli.New(opts, w.dial)
 	hc := cl.HC
 	w.hc = hc
@@ -594,6 +621,11 @@ func genPlan(t *rapid.T) *Plan {
 		}
 		p.Goroutines = append(p.Goroutines, rs)
 	}
+	if rapid.IntRange(0, 2).Draw(t, "perturb") > 0 {
+		for i := rapid.IntRange(1, 24).Draw(t, "yieldTableLen"); i > 0; i-- {
+			p.Yields = append(p.Yields, rapid.SampledFrom([]int{0, 0, 0, 1, 1, 2, 3, 4}).Draw(t, "yield"))
+		}
+	}
 	for i := 0; i < n+4; i++ {
 		p.DialFaults = append(p.DialFaults, rapid.SampledFrom([]int{0, 0, 0, 0, 0, 1, 2}).Draw(t, "dialFault"))
 	}
@@ -619,6 +651,9 @@ func classify(p *Plan) (bool, []string) {
 		if d == 1 {
 			cls = append(cls, "dial-error")
 		}
+	}
+	if len(p.Yields) > 0 {
+		cls = append(cls, "schedule-perturbed-at-pool-lock-boundaries")
 	}
 	nt := len(p.Goroutines) >= 2 && len(p.Goroutines) > p.MaxConns && faults >= 1
 	seen := map[string]bool{}
